@@ -459,8 +459,8 @@ def make_patch(pre, rb, hw, add_comments, orderer=None, _root_pre=None, do_commi
     for item in patch:
         sort_key = (
             (item["order"] if item["order_direct"] else -item["order"]),
-            item["raw_rule"],
             item["order_direct"],
+            item["raw_rule"],
         )
         if (not item["children"] and not item["parent"]) or not item["direct"]:
             tree.add(item["row"], item["context"], sort_key)
